@@ -41,11 +41,15 @@ def cases(tier, seed):
             c = dict(row)
             c.update(kind='swap', tier=tier, id=f'swap-{rep}-{i}', seed=hash_seed(seed, 'C05', 'swap', rep, i))
             out.append(c)
-        for i, row in enumerate(cat.covering({'cfg': list(range(10)), 'net': ['triangle', 'ring4', 'double', 'trace', 'chain-open'], 'parity': ['even', 'odd', 'mixed'],
+        for i, row in enumerate(cat.covering({'cfg': list(range(10)), 'net': ['triangle', 'ring4', 'double', 'trace', 'chain-open', 'trace-mid', 'trace-back', 'trace-split', 'trace-3', 'star'],
+                                              'parity': ['even', 'odd', 'mixed', 'multi'],
                                               'nswap': [1, 2, 3]}, seed=seed * 11 + rep, strength=2)):
             c = dict(row)
             c.update(kind='ncon', tier=tier, id=f'ncon-{rep}-{i}', seed=hash_seed(seed, 'C05', 'ncon', rep, i))
             out.append(c)
+    # the recorded defect (known_findings.json), on fixed inputs so that it is exercised by every run
+    out.append({'kind': 'ncon', 'cfg': 0, 'net': 'trace', 'parity': 'even', 'nswap': 1, 'force_swaps': [[1, -2]], 'tier': tier, 'id': 'ncon-loop-cross-a', 'seed': 11})
+    out.append({'kind': 'ncon', 'cfg': 1, 'net': 'trace-3', 'parity': 'even', 'nswap': 1, 'force_swaps': [[1, 3]], 'tier': tier, 'id': 'ncon-loop-cross-b', 'seed': 12})
     for sym in ('Z2', 'U1'):
         for N in (2, 3):
             out.append({'kind': 'car', 'sym': sym, 'N': N, 'family': 'spinless', 'tier': tier, 'id': f'car-spinless-{sym}-{N}', 'seed': 1})
@@ -190,13 +194,16 @@ def _net_tensors(ctx, rng, cfg, symn, template, parity):
     import yastn
     def leg():
         win = cat.window(symn)
-        k = min(len(win), 2)
+        k = min(len(win), kmax)
         ts = sorted(rng.sample(win, k))
         return {'t': [list(t) for t in ts], 'D': [1 for _ in ts]}
     nets = {'triangle': ([[-1, 1, 2], [1, 3, -2], [2, 3, -3]], 3), 'ring4': ([[1, 2, -1], [2, 3, -2], [3, 4, -3], [4, 1, -4]], 4),
-            'double': ([[1, 2, -1], [1, 2, -2]], 2), 'trace': ([[1, 1, 2, -1], [2, -2, -3]], 2), 'chain-open': ([[-1, 1, -2], [1, 2], [2, -3, -4]], 2)}
+            'double': ([[1, 2, -1], [1, 2, -2]], 2), 'trace': ([[1, 1, 2, -1], [2, -2, -3]], 2), 'chain-open': ([[-1, 1, -2], [1, 2], [2, -3, -4]], 2),
+            'trace-mid': ([[-1, 1, 2, 1], [2, -2, -3]], 2), 'trace-back': ([[2, -1, 1, 1], [2, -2, -3]], 2), 'trace-split': ([[1, 2, 1, -1, -4], [2, -2, -3]], 2),
+            'trace-3': ([[1, -1, 1, 2], [2, 3, -2], [3, -3, -4]], 3), 'star': ([[1, 2, 3], [1, -1], [2, -2], [3, -3]], 3)}
     inds, ncon_labels = nets[template]
     labels = sorted({x for ii in inds for x in ii})
+    kmax = rng.choice([2, 3, 4]) if len(labels) <= 6 else rng.choice([2, 2, 3])     # sectors per leg (dimension one each)
     L = {x: leg() for x in labels}
     S = {x: rng.choice([1, -1]) for x in labels}
     tens = []
@@ -215,14 +222,22 @@ def _net_tensors(ctx, rng, cfg, symn, template, parity):
             if tsp is None:
                 continue
             par = sum(tsp['n'][c] for c in range(len(fss)) if fss[c]) % 2 if any(fss) else 0
-            want = {'even': 0, 'odd': 1, 'mixed': k % 2}[parity]
             best = tsp
+            if parity == 'multi':
+                # odd in some fermionic component although the components sum to an even number (e.g. (1,1), (-1,0,1))
+                if any(tsp['n'][c] % 2 for c in range(len(fss)) if fss[c]) and sum(tsp['n']) % 2 == 0:
+                    break
+                continue
+            want = {'even': 0, 'odd': 1, 'mixed': k % 2}[parity]
             if par == want:
                 break
         if best is None:
             ctx.skip('no structure')
         tens.append(cat.build(ctx, best, f't{k}', config=cfg))
     return tens, inds, ncon_labels
+
+
+KNOWN_LOOP = 'ncon: swap between a label traced inside one tensor and a label on another tensor'
 
 
 def k_ncon(ctx, spec):
@@ -233,15 +248,28 @@ def k_ncon(ctx, spec):
     tens, inds, K = _net_tensors(ctx, rng, cfg, symn, spec['net'], spec['parity'])
     labels = sorted({x for ii in inds for x in ii})
     pairs = [(x, y) for x in labels for y in labels if x < y]
+    loops0 = {x for ii in inds for x in ii if ii.count(x) == 2}
+    if rng.random() < 0.8:
+        pairs = [(x, y) for x, y in pairs if x not in loops0 and y not in loops0]
     swaps = rng.sample(pairs, min(spec['nswap'], len(pairs)))
+    if spec.get('force_swaps'):
+        swaps = [tuple(x) for x in spec['force_swaps']]
     orders = list(itertools.permutations(range(1, K + 1)))
     results = []
+    # swap pairing a label traced inside one tensor with a label that has no leg on that tensor: recorded defect (known_findings.json); every
+    # failing obligation of such a case carries the one label KNOWN_LOOP so that nothing else is suppressed by the entry
+    holder = {x: k for k, ii in enumerate(inds) for x in ii if ii.count(x) == 2}
+    loop_cross = [(x, y) for x, y in swaps for a_, b_ in ((x, y), (y, x)) if a_ in holder and b_ not in inds[holder[a_]]]
     for o in orders:
         try:
             r = yastn.ncon(tens, inds, order=list(o), swap=swaps)
         except yastn.YastnError as e:
             if 'inefficient order' in str(e) or 'one after another' in str(e):
                 continue
+            raise
+        except AssertionError as e:
+            if loop_cross:
+                ctx.check(False, KNOWN_LOOP, f'order {o} swap {swaps}: AssertionError {e}')
             raise
         results.append((o, r))
     ctx.check(len(results) >= 1, 'ncon: at least one admissible order')
@@ -256,7 +284,7 @@ def k_ncon(ctx, spec):
     # default order (None) and einsum with the same network
     r = yastn.ncon(tens, inds, swap=swaps)
     U2 = [_u(x, y) for x, y in zip(r.get_legs(native=True), U)]
-    ctx.eq(reassemble(r, U2), reassemble(r0, U2), 'ncon: default order == explicit order')
+    ctx.eq(reassemble(r, U2), reassemble(r0, U2), KNOWN_LOOP if loop_cross else 'ncon: default order == explicit order')
     # swaps between two OPEN legs only: dense oracle (sign on the output indices) relative to the swap-free network
     open_sw = [(x, y) for x, y in swaps if x < 0 and y < 0]
     if open_sw and len(open_sw) == len(swaps):
@@ -270,7 +298,58 @@ def k_ncon(ctx, spec):
         base = yastn.ncon(tens, inds)
         lb = list(base.get_legs(native=True))
         ctx.eq(reassemble(r, lb), reassemble(base, lb), 'ncon: swaps are trivial for bosonic statistics')
+    # every swap set (open or contracted legs): independent dense definition
+    ref, lo = _ncon_oracle(tens, inds, swaps, _fss(cfg), ctx.mode == 'sym')
+    lo = [l if l.s == lr.s else l.conj() for l, lr in zip(lo, r.get_legs(native=True))] if r.ndim_n else []
+    ctx.eq(reassemble(r, lo), ref, KNOWN_LOOP if loop_cross else f'ncon(swap={swaps}) == sum over index assignments with crossing signs (dense definition)')
     return {'net': spec['net'], 'swaps': swaps, 'orders': len(results), 'cfg': FCFG[spec['cfg']]}
+
+
+def _ncon_oracle(tens, inds, swaps, fss, dtype_obj):
+    """independent dense definition of ncon with swaps: sum over all index assignments of the product of the operands' entries times
+    (-1)^{sum over swapped label pairs (a,b) of p(i_a).p(i_b)}, p = parity vector (fermionic components) of the sector the index lies in."""
+    U = {}
+    for t, ii in zip(tens, inds):
+        for l, x in zip(t.get_legs(native=True), ii):
+            if x not in U:
+                U[x] = l
+            else:
+                U[x] = _u(U[x], l.conj())
+    arrs = []
+    for t, ii in zip(tens, inds):
+        seen = set()
+        legs = []
+        own = t.get_legs(native=True)
+        for l, x in zip(own, ii):
+            legs.append(U[x] if l.s == U[x].s else U[x].conj())
+        # a label traced inside one tensor: both axes use U[x] / its conj
+        arrs.append(reassemble(t, legs))
+    labels = sorted(U)
+    dims = {x: sum(U[x].D) for x in labels}
+    par = {x: _leg_par(U[x], fss) for x in labels} if any(fss) else None
+    outs = sorted([x for x in labels if x <= 0], reverse=True)
+    res = np.zeros(tuple(dims[x] for x in outs), dtype=object if dtype_obj else np.complex128)
+    for combo in itertools.product(*[range(dims[x]) for x in labels]):
+        idx = dict(zip(labels, combo))
+        term = 1
+        zero = False
+        for a, ii in zip(arrs, inds):
+            v = a[tuple(idx[x] for x in ii)]
+            if isinstance(v, (int, float, np.integer, np.floating)) and v == 0:
+                zero = True
+                break
+            term = term * v
+        if zero:
+            continue
+        if par is not None:
+            e = 0
+            for a_, b_ in swaps:
+                e += int((par[a_][idx[a_]] * par[b_][idx[b_]]).sum())
+            if e % 2:
+                term = -term
+        k = tuple(idx[x] for x in outs)
+        res[k] = res[k] + term
+    return res, [U[x] for x in outs]
 
 
 def _u(x, y):
